@@ -33,15 +33,20 @@ def num(x): return (x, 'num')
 def boo(x): return (x, 'bool')
 
 
-def _mask_chain(func, target, env):
-    """`t = e0` followed by any number of `t &= ek` inside `func` -> the conjunction, translated with `env`"""
+def _mask_parts(func, target):
+    """`t = e0` followed by any number of `t &= ek` inside `func` -> [e0, e1, ...]"""
     first = [n for n in ast.walk(func) if isinstance(n, ast.Assign) and any(ast.unparse(t) == target for t in n.targets)]
     a = one(first, f'{target} = ...')
     augs = [n for n in ast.walk(func) if isinstance(n, ast.AugAssign) and ast.unparse(n.target) == target]
     for n in augs:
         if not isinstance(n.op, ast.BitAnd): raise NotFound(f'{target}: augmented assignment is not &=')
     augs.sort(key=lambda n: n.lineno)
-    parts = [a.value] + [n.value for n in augs]
+    return [a.value] + [n.value for n in augs]
+
+
+def _mask_chain(func, target, env):
+    """the conjunction of the parts of the mask, translated with `env`"""
+    parts = _mask_parts(func, target)
     e = parts[0] if len(parts) == 1 else ast.BoolOp(ast.And(), parts)
     return translate(ast.fix_missing_locations(e), env, 'bool')
 
@@ -49,6 +54,65 @@ def _mask_chain(func, target, env):
 def a_maskIsBothFinite(T):
     f = find(T['core'], ['Plotter', 'prepare_xy_vals_lineplot', 'gen_xy'])
     return _mask_chain(f, 'not_null', {"np.isfinite(data['x'])": boo('xFinite'), "np.isfinite(data['y'])": boo('yFinite')})
+
+
+def a_maskArrays(T):
+    """which prepared arrays enter the missing-data mask: every part of the `not_null` chain must be a conjunction of
+    `np.isfinite(data['<key>'])` terms; the keys, in order.  Any other shape (a loop over the arrays, another test) is
+    not translated: the anchor falls back and the drawn points decide."""
+    f = find(T['core'], ['Plotter', 'prepare_xy_vals_lineplot', 'gen_xy'])
+    keys = []
+
+    def term(e):
+        if isinstance(e, ast.BoolOp) and isinstance(e.op, ast.And):
+            for v in e.values: term(v)
+        elif isinstance(e, ast.BinOp) and isinstance(e.op, ast.BitAnd):
+            term(e.left); term(e.right)
+        elif (isinstance(e, ast.Call) and ast.unparse(e.func) == 'np.isfinite' and len(e.args) == 1 and not e.keywords
+              and isinstance(e.args[0], ast.Subscript) and ast.unparse(e.args[0].value) == 'data'
+              and isinstance(e.args[0].slice, ast.Constant) and isinstance(e.args[0].slice.value, str)):
+            if e.args[0].slice.value not in keys: keys.append(e.args[0].slice.value)
+        else:
+            raise NotFound('mask term is not np.isfinite(data[<key>]): ' + ast.unparse(e)[:80])
+    for part in _mask_parts(f, 'not_null'): term(part)
+    return '[' + ', '.join(lean_str(k) for k in keys) + ']'
+
+
+def _limit_defaulted(T, attr, data_attr):
+    """calc_color_norm: the condition on the caller's limit `self.<attr>` under which it is replaced by the data limit
+    `self.<data_attr>`.  Recognised shapes of the one statement assigning `self.<attr>`:
+        if TEST: self.vmin = self._zmin                        -> TEST
+        self.vmin = self._zmin if TEST else self.vmin          -> TEST      (and the mirrored form -> not TEST)
+        self.vmin = self.vmin or self._zmin                    -> not bool(self.vmin)
+    TEST is translated with: `self.vmin is None` -> isNone, `self.vmin == 0` -> isZero, `self.vmin` used as a truth value
+    -> not (isNone or isZero)."""
+    f = find(T['core'], ['Plotter', 'calc_color_norm'])
+    tgt, dflt = 'self.' + attr, 'self.' + data_attr
+    truthy = '(!(isNone || isZero))'
+    env = {f'{tgt} is None': boo('isNone'), f'{tgt} is not None': boo('(!isNone)'), f'{tgt} == None': boo('isNone'),
+           f'{tgt} != None': boo('(!isNone)'), f'{tgt} == 0': boo('isZero'), f'{tgt} != 0': boo('(!isZero)'),
+           f'{tgt} == 0.0': boo('isZero'), f'{tgt} != 0.0': boo('(!isZero)'), f'bool({tgt})': boo(truthy), tgt: boo(truthy)}
+    stmts = [n for n in ast.walk(f) if isinstance(n, (ast.Assign, ast.AugAssign, ast.AnnAssign))
+             and any(ast.unparse(t) == tgt for t in (n.targets if isinstance(n, ast.Assign) else [n.target]))]
+    a = one(stmts, f'{tgt} = ...')
+    if not isinstance(a, ast.Assign) or len(a.targets) != 1: raise NotFound(f'{tgt}: not a plain assignment')
+    if any(a is b for b in f.body):                                  # unconditional statement of the function
+        v = a.value
+        if isinstance(v, ast.BoolOp) and isinstance(v.op, ast.Or) and [ast.unparse(x) for x in v.values] == [tgt, dflt]:
+            return f'(!{truthy})'
+        if isinstance(v, ast.IfExp) and ast.unparse(v.body) == dflt and ast.unparse(v.orelse) == tgt:
+            return translate(v.test, env, 'bool')
+        if isinstance(v, ast.IfExp) and ast.unparse(v.body) == tgt and ast.unparse(v.orelse) == dflt:
+            return '(!' + translate(v.test, env, 'bool') + ')'
+        raise NotFound(f'{tgt}: unrecognised defaulting expression {ast.unparse(v)[:80]}')
+    ifs = [n for n in f.body if isinstance(n, ast.If) and len(n.body) == 1 and n.body[0] is a and not n.orelse]
+    i = one(ifs, f'if ...: {tgt} = {dflt}')
+    if ast.unparse(a.value) != dflt: raise NotFound(f'{tgt} is not defaulted to {dflt}')
+    return translate(i.test, env, 'bool')
+
+
+def a_vminDefaulted(T): return _limit_defaulted(T, 'vmin', '_zmin')
+def a_vmaxDefaulted(T): return _limit_defaulted(T, 'vmax', '_zmax')
 
 
 def a_autoLegend(T):
@@ -81,6 +145,9 @@ def a_infMaskBothNotNull(T):
 
 ANCHORS = [
     ('maskIsBothFinite', '(xFinite yFinite : Bool) : Bool', a_maskIsBothFinite),
+    ('maskArrays', ': List String', a_maskArrays),
+    ('vminDefaulted', '(isNone isZero : Bool) : Bool', a_vminDefaulted),
+    ('vmaxDefaulted', '(isNone isZero : Bool) : Bool', a_vmaxDefaulted),
     ('autoLegend', '(n : Int) : Bool', a_autoLegend),
     ('markersDefault', ': List String', a_markersDefault),
     ('linestylesDefault', ': List String', a_linestylesDefault),
